@@ -8,6 +8,10 @@ C07 driver.  Requests (all self-contained):
 `knn   ty= kind= metric= p= ncols= leaf= [lay= form=] pts= [qlay=] q= k= [script=]`
 `range ty= kind= metric= p= ncols= leaf= [lay= form=] pts= [qlay=] q= r= [script=]`
 `tree  ty= metric= p= ncols= leaf= [lay= form=] pts= script=`
+`default`   the leaf size `NearestNeighbour::from_batch` passes on (`defaultLeaf`)
+
+`lay` also `rev` (negative strides), `qlay` also `rev`; `pre=<j>`: the compared query is the (j+1)-th on
+one index (the model is stateless: no input of the answer).
 
 `lay` c|f|strided|t and `qlay` c|strided name the memory layout of batch and query on the Rust side
 (validated, otherwise no input of the model); `form` leaf|default selects `from_batch_with_leaf_size`
@@ -58,18 +62,30 @@ def parseScript (s : String) : Option Script := do
     | [[c], l, r] => some (c, l, r)
     | _ => none
 
-/-- the `split` parameter of `build`, read off the real tree: looked up by member set -/
-def scriptSplit (script : Script) (pts : List (Pt (List α))) :
-    Option (List (Pt (List α)) × List α × List (Pt (List α))) :=
+/-- the stored points at the given row positions, in that order (`none` if one is absent) -/
+def lookAll {P : Type} (pts : List (Pt P)) : List Nat → Option (List (Pt P))
+  | [] => some []
+  | i :: is =>
+    match pts.find? (fun p => p.2 == i), lookAll pts is with
+    | some p, some ps => some (p :: ps)
+    | _, _ => none
+
+/-- the `split` parameter of `build`, read off the real tree: looked up by member set.  A script
+entry is used only if its two halves together are exactly the row positions of `pts`, both halves
+are non-empty (`debug_assert!(!aps.is_empty() && !bps.is_empty())`) and its centre is one of the
+points; otherwise the split is refused (`none`, the model then builds a leaf and the dump differs).
+Generic in the point type: `Props/C07.scriptSplit_splitPerm` proves the contract `SplitPerm` for
+EVERY script, so the search theorems apply to whatever the driver runs. -/
+def scriptSplit {P : Type} (script : Script) (pts : List (Pt P)) :
+    Option (List (Pt P) × P × List (Pt P)) :=
   let key := sortNat (pts.map (·.2))
-  match script.find? (fun e => sortNat (e.2.1 ++ e.2.2) == key) with
+  match script.find? (fun e => e.2.1.length + e.2.2.length == pts.length &&
+      sortNat (e.2.1 ++ e.2.2) == key) with
   | none => none
-  | some (c, l, r) => do
-    let look := fun (i : Nat) => pts.find? (fun p => p.2 == i)
-    let a ← l.mapM look
-    let b ← r.mapM look
-    let cp ← look c
-    some (a, cp.1, b)
+  | some (c, l, r) =>
+    match lookAll pts l, lookAll pts r, pts.find? (fun p => p.2 == c) with
+    | some a, some b, some cp => if a.isEmpty || b.isEmpty then none else some (a, cp.1, b)
+    | _, _, _ => none
 
 def eqS (a b : α) : Bool := !decide (a < b) && !decide (b < a)
 
@@ -137,12 +153,15 @@ def run (sc : Sc α) (op : String) (toks : List String) : Option String := do
   let pts ← (arg toks "pts").bind (parseList2 sc.parse)
   let fD := fun (x : α) => if approx then "~" ++ showF64 (sc.wide x) else sc.shw x
   let script ← (match arg toks "script" with | none => some [] | some s => parseScript s)
-  let split := scriptSplit (α := α) script
+  let split := scriptSplit (P := List α) script
   -- calling forms: the memory layout of batch / query is not an input of the model (it sees the
   -- logical values), but an unknown form is an ill-formed request
   let lay := (arg toks "lay").getD "c"
   let qlay := (arg toks "qlay").getD "c"
-  if !(["c", "f", "strided", "t"].contains lay) || !(["c", "strided"].contains qlay) then none else
+  if !(["c", "f", "strided", "t", "rev"].contains lay) || !(["c", "strided", "rev"].contains qlay) then none else
+  -- `pre` = number of warm-up queries on the same index before the compared one: the model is
+  -- stateless (an index is a value), so the answer does not depend on it
+  let _pre ← (match arg toks "pre" with | none => some 0 | some s => parseNat s)
   let form ← (match (arg toks "form").getD "leaf" with
     | "leaf" => some (Form.leaf leaf)
     | "default" => some Form.default
@@ -195,6 +214,7 @@ end
 
 def handle (toks : List String) : String :=
   let r := match toks with
+    | ["default"] => some s!"ok leaf={defaultLeaf}"
     | op :: rest =>
       if op == "knn" || op == "range" || op == "tree" then
         match arg rest "ty" with
